@@ -26,6 +26,7 @@ ASSUMPTIONS = [
     "oriented-tree density; the library adds (n-1) log 2 when a removal probability is given (labelled-tree convention): this constant is fixed from theory, not fitted",
     "coincidences of a boundary with an event are generated only where the rates on both sides are equal (refinement) or where the tips on the boundary are rho-sampled",
     "a Stadler-closed-form / ODE disagreement is an oracle error (harness error -> inconclusive), never a violation",
+    "fast-process cases whose survival probability is itself below 1e-304 are not judged (the quantity conditioned on is not a double)",
 ]
 BUDGET = {"quick": 80, "thorough": 900}
 ROUNDS = {"thorough": 10}
@@ -62,6 +63,10 @@ def cases(tier, seed):
         out.append({"sub": "single", "n": int(rng.choice([2, 4, 8, 20])), "sampling": str(rng.choice(["serial", "contemp", "mixed", "contemp-psi"])), "m": 1, "boundaries": "default",
                     "rho_interior": False, "r": "none", "survival": bool(i % 2), "route": str(rng.choice(["json", "direct"])), "seed": int(rng.integers(2**31)),
                     "fast": float([20.0, 60.0, 200.0, 600.0][i % 4])})
+        if i % 5 == 4:
+            # a declining epidemic sampled at the present only, conditioned on having survived: the survival probability is small
+            # (1e-10 .. 1e-300), its logarithm is an ordinary number
+            out[-1].update(sampling="contemp", survival=True, subcritical=True, fast=float([3.0, 8.0, 20.0, 60.0][(i // 5) % 4]))
     return out
 
 
@@ -121,6 +126,9 @@ def build(case):
     delta = gm.loguniform(rng, 0.2, 3.0, m) * case.get("fast", 1.0)
     s = rng.uniform(0.05, 0.9, m)
     if case["sampling"] == "contemp" and rng.random() < 0.5:
+        s = np.zeros(m)
+    if case.get("subcritical"):
+        R = np.full(m, float(rng.uniform(0.5, 0.95)))
         s = np.zeros(m)
     rkind = case["r"]
     if rkind == "const":
@@ -280,6 +288,13 @@ def _run_case(case):
         C["fast_cases"] = 1
         if A * d["origin"] > 355:
             C["fast_cases_beyond_exp_range"] = 1
+        if surv:
+            lsp = bd.single_epoch_log_density(d["tip_heights"], d["internal"], d["origin"], lam[0], mu[0], psi[0], d["rho"][0], None, "log-survival-probability")
+            if lsp < -700.0:
+                # the probability the density is conditioned on is itself below the range of a double (a process that dies out with
+                # probability 1 - 1e-304 or more): not judged
+                C["survival_probability_below_double_range"] = 1
+                return {"violations": V, "counters": C, "fingerprint": None, "sample": None}
         x = lib_value()
         C["closed_form_comparisons"] += 1
         if not np.isfinite(x) or abs(x - cf) > 1e-9 * max(1.0, abs(cf)):
